@@ -95,8 +95,9 @@ func (s *scanner) peek() (*pb.Result, error) {
 	if err != nil {
 		return nil, err
 	}
-	if !s.closed && s.rpc.RenewInterval() > 0 {
-		// Start up a renewer
+	if !s.closed && !s.isRegionScannerClosed() && s.rpc.RenewInterval() > 0 {
+		// Start up a renewer: there is an open region scanner on
+		// a regionserver whose lease has to be kept alive
 		renewCtx, cancel := context.WithCancel(s.rpc.Context())
 		s.renewCancel = cancel
 		go s.renewLoop(renewCtx, s.startRow)
